@@ -19,10 +19,10 @@ ASSUMPTIONS = ["value form only for games that are stopping with zero-reward abs
                "scope with pruning: states reachable from state 0 in the conditioned game; without: all states",
                "band |rew - V| <= 1e-6*T_max(s) + 1e-9*max(1,|V|)"]
 TIMEOUT = 1800
-TABLE = [("G-ACY", 700), ("G-CYC", 700), ("G-SLOW", 200), ("G-DEAD", 700), ("G-LEX", 350), ("G-TIE", 200), ("G-TIEC", 200), ("G-TINYB", 400), ("G-RNEAR", 100), ("G-AUXFAST", 40), ("G-DUPL", 300), ("G-MIX", 500), ("G-SMALLX", 200), ("G-VSLOW", 3), ("G-GAP", 300), ("G-GAPLOOP", 150), ("G-CORR", 200), ("G-BIGR", 150), ("G-DIGIT", 250), ("G-RETRY", 200)]
+TABLE = [("G-ACY", 700), ("G-CYC", 700), ("G-SLOW", 200), ("G-DEAD", 700), ("G-LEX", 350), ("G-TIE", 200), ("G-TIEC", 200), ("G-TINYB", 400), ("G-RNEAR", 100), ("G-AUXFAST", 40), ("G-DUPL", 300), ("G-MIX", 500), ("G-SMALLX", 200), ("G-VSLOW", 3), ("G-GAP", 300), ("G-GAPLOOP", 150), ("G-CORR", 200), ("G-BIGR", 150), ("G-DIGIT", 250), ("G-RETRY", 200), ("G-FINREP", 200)]
 
 
-def plan(tier, seed):
+def _plan_base(tier, seed):
     return sc.plan_classes(tier, TABLE) + boards_common.plan_boards(tier)
 
 
@@ -75,13 +75,16 @@ def decide(gd, idx, cls, via_run_games=False):
                         # of the two passes must still run in ITS mode
                         d_["prune_states"] = (idx // 20) % 2 == 1
                         res["stats"]["run_games_with_own_prune_key"] = 1
-                    rr = cr.run_games({"g": d_})
+                    with monitors.capture_log() as cl_:
+                        rr = cr.run_games({"g": d_})
                 except monitors.StepBudgetExceeded:
                     rr = None
                 finally:
                     monitors.MON.metering = False
             if rr is not None:
                 res["stats"]["run_games_compared"] = 1
+                # what the user reads without -s: the INFO log must state the same rewards, under the right label
+                problems += [dict(q, mode="INFO log", state=None) for q in monitors.check_log_against(cl_.blocks(), rr)]
                 if rr["g"]["rewards"] != out.result[2]:
                     problems.append({"problem": "run_games reports different rewards than solve()", "mode": "run_games"})
                 if outs[False].status == "ok" and rr["g_no_prune"]["rewards"] != outs[False].result[2]:
@@ -110,7 +113,16 @@ def decide(gd, idx, cls, via_run_games=False):
     return res
 
 
+def plan(tier, seed):
+    from . import threads_common
+    return threads_common.plan_threads(tier) + _plan_base(tier, seed)
+
+
 def run_batch(batch):
+    if batch["cls"] == "THREADS":
+        from . import threads_common
+        yield from threads_common.run(batch, PID, ["rewards"], EMIT_START, 'solve', None)
+        return
     monitors.install()
     monitors.MON.flags.update(alias=False, prune=False)
     if batch["cls"].startswith("B-"):
@@ -124,6 +136,9 @@ def run_batch(batch):
 
 
 def replay(case):
+    if "threads" in case:
+        from . import threads_common
+        return threads_common.replay(case, PID, ["rewards"], 'solve', None)
     monitors.install()
     monitors.MON.flags.update(alias=False, prune=False)
     if "game" in case and isinstance(case["game"], dict):
